@@ -194,7 +194,7 @@ class Context:
                 continue
             if name is not None and e.data.get('name') != name:
                 continue
-            if func is not None and (e.func is None or e.func.short != func):
+            if func is not None and e.owner != func:
                 continue
             out.append(e)
         return out
@@ -210,7 +210,7 @@ class Context:
                 continue
             if suffix is not None and not n.endswith(suffix):
                 continue
-            if func is not None and (e.func is None or e.func.short != func):
+            if func is not None and e.owner != func:
                 continue
             out.append(e)
         return out
